@@ -205,6 +205,8 @@ def draw_step(draw, m, kind, cfg):
 @st.composite
 def scenarios(draw, cfg):
     rootname = draw(gen.names(cfg.get("names", "full")))
+    if rootname.startswith("_"):
+        rootname = "r" + rootname  # (names like _flat, _ii, _pl are the harness's own folders beside the root)
     tree = draw(gen.trees(cfg.get("names", "full"), max_leaves=cfg.get("max_leaves", 12), min_top=cfg.get("min_top", 1)))
     m = GenModel(tree)
     steps = []
